@@ -361,6 +361,17 @@ def run(ctx: Ctx) -> None:
         else:
             rep.bad("C05.R9", so.qname, desc, so.loc(st), w, stmt_key(st), what="an option value is stored before (or without) being validated")
     rep.floor("C05.R9", n9, 1)
+    if rep.prop == "C05":
+        # the arguments of a kept call reach the value hasher through the binders: a value that never reaches it (None passed by keyword
+        # taken for "not passed", the whole keyword mapping hashed in place of one value) shares the signature of another value
+        from . import c13 as _c13
+        rep.rule("C05.R10", "as C13.R1-R9: each bound argument value is what the value hasher is given (positional, keyword, default; None and falsy values included)")
+        before = len(rep.obligations)
+        _c13.run(ctx)
+        for o in rep.obligations[before:]:
+            o.rule = "C05.R10/" + o.rule
+        for k in [k for k in rep.floors if k.startswith("C13.")]:
+            rep.floors["C05.R10/" + k] = rep.floors.pop(k)
     rep.rule("C05.R8", "the digest helpers hash their argument itself (an encode at most between the parameter and hashlib)")
     n8 = algo_preimage_rule(ctx, "C05.R8")
     rep.floor("C05.R8", n8, 2)
@@ -578,6 +589,94 @@ def run(ctx: Ctx) -> None:
         rep.bad("C05.R5", h.qname, desc, h.loc(), wit + ["e.g. a bare two's-complement encoding of 2**62 is the 8 bytes of the float 2.0"], "numeric", what="numeric encodings of different types can coincide")
     else:
         rep.ok("C05.R5", h.qname, desc, h.loc())
+
+
+PINNED_VALUES = [
+    ("0", 0), ("1", 1), ("-1", -1), ("2**31-1", 2**31 - 1), ("-2**31", -2**31), ("2**31", 2**31), ("-2**31-1", -2**31 - 1), ("2**63", 2**63), ("-2**63", -2**63), ("10**30", 10**30),
+    ("0.0", 0.0), ("-0.0", -0.0), ("1.5", 1.5), ("True", True), ("False", False), ('""', ""), ('"a"', "a"), ('"\u00e9"', "\u00e9"), ('"1"', "1"), ("None", None),
+    ("[]", []), ("[1, 2]", [1, 2]), ("(1, 2)", (1, 2)), ("[[1], 2]", [[1], 2]), ("[1, [2, 'x']]", [1, [2, "x"]]), ('{"a": 1}', {"a": 1}), ("{1: 'b'}", {1: "b"}),
+    ('{"a": 1, "b": None}', {"a": 1, "b": None}), ("{}", {}), ('[None, "", 0]', [None, "", 0]),
+]
+
+
+def abstract_preimage(ctx: Ctx, val: Any) -> Tuple[Optional[bytes], str]:
+    """the bytes that dds_hash digests for a value, by abstract evaluation of its source (inner digests folded); (None, reason) when undecided"""
+    prog = ctx.prog
+    outer = prog.funcs.get("dds.fun_args.dds_hash")
+    if outer is None:
+        raise AnchorError("dds.fun_args.dds_hash not found")
+
+    def oracle(name, args, kwargs, node):
+        if name.endswith("get_option"):
+            return Const(10000)
+        if name.endswith("PyHash") and args:
+            return args[0]
+        return NOT_HANDLED
+    ev = Evaluator(prog, oracle=oracle, max_depth=30, instance_modules=[outer.module.name])
+    try:
+        outs = ev.run(outer, [Const(val)])
+    except Exception as e:
+        return None, f"{type(e).__name__}: {e}"
+    rets = [o for o in outs if o.kind == "return"]
+    pres = {o.value.pre.v for o in rets if isinstance(o.value, Digest) and isinstance(o.value.pre, Const) and isinstance(o.value.pre.v, (bytes, bytearray))}
+    if len(pres) == 1 and len(rets) == len(outs) and all(isinstance(o.value, Digest) and isinstance(o.value.pre, Const) for o in rets):
+        return bytes(next(iter(pres))), ""
+    return None, f"outcomes {[repr(o.value) if o.kind == 'return' else str(o.exc) for o in outs][:3]}"
+
+
+def pinned_preimages(ctx: Ctx, rule: str) -> int:
+    """the bytes digested for each value of a fixed table are the pinned ones (ddsverif/pinned_hashes.py, computed from the pinned
+    tree by the same abstract evaluation): signatures persisted by earlier runs or by collaborators stay addressable"""
+    from ..pinned_hashes import PINNED
+    rep = ctx.report
+    outer = ctx.prog.funcs["dds.fun_args.dds_hash"]
+    n = 0
+    bad, und = [], []
+    for label, val in PINNED_VALUES:
+        want = PINNED.get(label)
+        if want is None:
+            continue
+        got, why = abstract_preimage(ctx, val)
+        if got is None:
+            und.append(f"dds_hash({label}): {why}")
+            continue
+        n += 1
+        if got.hex() != want:
+            bad.append(f"dds_hash({label}) digests {got!r}; the pinned signature digests {bytes.fromhex(want)!r}")
+    desc = f"the {len(PINNED_VALUES)} values of the pinned table are digested from the pinned bytes"
+    if bad:
+        rep.bad(rule, outer.qname, desc, outer.loc(), bad[:6] + ["every signature that depends on such a value changes: blobs persisted by earlier runs or by collaborators are no longer "
+                "addressable (each run is a miss) and pinned signatures drift"], "pinned-preimages", what="the encoding of a value differs from the pinned one: persisted signatures drift")
+    elif und:
+        rep.unknown(rule, outer.qname, "value hasher uses syntax outside the abstract evaluator", outer.loc(), und[:4])
+    else:
+        rep.ok(rule, outer.qname, desc, outer.loc())
+    return n
+
+
+def falsy_distinct(ctx: Ctx, rule: str) -> int:
+    """None and the falsy values of different types are digested from different bytes (a binding of 0 / "" / () / None is not another one)"""
+    rep = ctx.report
+    outer = ctx.prog.funcs["dds.fun_args.dds_hash"]
+    vals = [("None", None), ("0", 0), ("0.0", 0.0), ('""', ""), ("[]", []), ("{}", {}), ("1", 1), ('"0"', "0")]
+    pre: Dict[str, bytes] = {}
+    und = []
+    for label, v in vals:
+        got, why = abstract_preimage(ctx, v)
+        if got is None:
+            und.append(f"dds_hash({label}): {why}")
+        else:
+            pre[label] = got
+    coll = [f"dds_hash({a}) == dds_hash({b}): both digest {pre[a]!r}" for i, a in enumerate(pre) for b in list(pre)[i + 1:] if pre[a] == pre[b]]
+    desc = f"None and the falsy values {[l for l, _ in vals]} have pairwise distinct pre-images"
+    if coll:
+        rep.bad(rule, outer.qname, desc, outer.loc(), coll + ["after dds.keep(p, f, 0) the call dds.keep(p, f, None) is served the result computed for 0"], "falsy",
+                what="bindings that differ only by falsy values share a signature")
+    elif und:
+        rep.unknown(rule, outer.qname, "value hasher uses syntax outside the abstract evaluator", outer.loc(), und[:4])
+    else:
+        rep.ok(rule, outer.qname, desc, outer.loc())
+    return len(pre)
 
 
 def _const_bytes(ctx: Ctx, h: Func, e: ast.AST):
